@@ -23,7 +23,8 @@ SeqOf(x) == "Seq" \o x
 (* packaging sorts: Pair = (Int, Int); Rec = {k1: Int, k2: Int}; Nest = (Pair, Int);  *)
 (* RecP = {k1: Pair, k2: Int}; PS = (SeqJet, Int)                                     *)
 PackSorts == {"Pair", "Rec", "Nest", "RecP", "PS", "PSP", "RecS", "RecI"}   \* RecI = {0: Int, 1: Int}   \* PSP = (SeqPair, Int); RecS = {k1: PS, k2: Pair}
-ElemSorts == IF Fam = "mdp" THEN {"Evt", "Jet", "Int", "PS", "RecS"}      \* MetaData wrappers inside packaged values
+ElemSorts == IF Fam = "e2eb" THEN {"Evt", "Jet", "Trk", "Int", "SeqInt", "SeqSeqInt"}
+             ELSE IF Fam = "mdp" THEN {"Evt", "Jet", "Int", "PS", "RecS"}      \* MetaData wrappers inside packaged values
              ELSE IF Fam = "chainp" THEN {"Evt", "Jet", "Int", "Pair", "PSP", "SeqInt"}   \* nested packaging and
                                                         \* nested result sequences, few sorts, deep
              ELSE ObjSorts \cup {"Int"} \cup (IF Fam \in {"chain1", "chainx"} THEN PackSorts \ {"RecS"}
@@ -40,7 +41,8 @@ Fields == { <<"Evt", "met", "Int">>, <<"Evt", "n", "Int">>, <<"Evt", "jets", "Se
 (* ------------------------------------------------------------------ *)
 (* production families                                                *)
 Binders == CASE Fam \in {"fuse1", "chain1", "md1", "chainx", "chainp", "mdp"} -> {"x"}
-             [] Fam = "helper" -> {"a", "t"}
+             [] Fam = "helper" -> {"a", "t", "a_1"}     \* (a_1: what an inner binder a is renamed to when it collides)
+             [] Fam = "e2eb" -> {"x", "x_1"}
              [] Fam = "corea" -> {"arg_0", "arg_1", "arg_e"}     \* names the simplifier itself generates / names that look alike
              [] OTHER -> {"x", "y"}
 
@@ -79,6 +81,7 @@ Enabled(prod) ==
       [] Fam = "helper" -> prod \in {"Select", "Where", "SelectMany", "Helper", "Add", "Cmp", "Count", "First"}
       [] Fam = "e2e"   -> prod \in {"Select", "Where", "SelectMany", "First", "Count", "Add", "Mul", "Cmp", "If",
                                     "TupProj", "MethArgs", "MethKw", "Sum", "And", "BetaDef", "HelperE2E", "Thunk"}
+      [] Fam = "e2eb"  -> prod \in {"Select", "Add", "BetaSel"}     \* called lambdas resolved when the query is built
       [] Fam = "e2et"  -> prod \in {"Select", "Where", "Add", "Cmp", "Thunk"}    \* thunks before bare parameter uses
       [] Fam = "all"   -> prod \notin {"OtherMeth", "KwOp", "AggOdd", "MD", "OutIdx", "AbsentKey", "Comp", "Helper", "HelperE2E",
                                        "AggExpl", "FuncKw", "UnIdx", "Thunk"}
@@ -91,7 +94,7 @@ VarsOf(s, ns, ss) == {Name(ns[i]) : i \in {j \in 1..Len(ns) : ss[j].s = s /\ Vis
 (* v.f for every visible object variable v with a field f of sort s *)
 (* a field reference: attribute v.f, or (typed families) the method call v.f() -- Jet.eta has a   *)
 (* required parameter, so it is always written with an argument there                              *)
-MethodLeaves == Fam \in {"e2e", "e2et"}
+MethodLeaves == Fam \in {"e2e", "e2et", "e2eb"}
 FieldRef(v, cls, f) == IF ~MethodLeaves THEN Attr(v, f)
                        ELSE IF cls = "Jet" /\ f = "eta" THEN Meth(v, f, <<IntC(1)>>) ELSE Meth(v, f, <<>>)
 FieldRefs(s, ns, ss) ==
@@ -140,8 +143,8 @@ Split3(r) == {<<q[1], q[2], r - q[1] - q[2]>> : q \in {w \in (0..r) \X (0..r) : 
 Push(ns, x) == Append(ns, x)
 
 (* function form Op(src, args) and, in the method-form families, src.Op(args) *)
-MethForm == Fam \in {"meth", "e2e", "e2et"}
-FnForm == Fam \notin {"e2e", "e2et"}          \* the end-to-end family writes operators the way users do: seq.Op(...)
+MethForm == Fam \in {"meth", "e2e", "e2et", "e2eb"}
+FnForm == Fam \notin {"e2e", "e2et", "e2eb"}          \* the end-to-end family writes operators the way users do: seq.Op(...)
 Forms(op, src, rest) == (IF FnForm THEN {Fn(op, <<src>> \o rest)} ELSE {})
                           \cup (IF MethForm THEN {Meth(src, op, rest)} ELSE {})
 
@@ -234,6 +237,13 @@ NonLeaf(h) ==
        ELSE {}) \cup
       (* a parameter-less called lambda *)
       (IF s = "Int" /\ Enabled("Thunk") THEN {CallP(Lam(<<>>, Hole("Int", r, ns, ss)), <<>>)} ELSE {}) \cup
+      (* a called lambda that selects over its argument; its inner lambda re-uses a binder name and its body sees *)
+      (* every enclosing binder (free names of the called lambda)                                              *)
+      (IF s \in SeqSorts /\ Enabled("BetaSel") THEN
+          UNION {{CallP(Lam1("a", Meth(Name("a"), "Select",
+                                       <<Lam1(x, Hole(Elem(s), sp[2], ns \o <<"a", x>>, ss \o <<SortT(SeqOf(y)), SortT(y)>>))>>)),
+                        <<Hole(SeqOf(y), sp[1], ns, ss)>>) : sp \in Split2(r), x \in Binders} : y \in {"Jet", "Trk"}}
+       ELSE {}) \cup
       (IF s = "Int" /\ Enabled("Beta2") THEN
           {CallP(Lam(<<x, z>>, Hole("Int", sp[3], ns \o <<x, z>>, ss \o <<SortT("Int"), SortT("Jet")>>)),
                  <<Hole("Int", sp[1], ns, ss), Hole("Jet", sp[2], ns, ss)>>) :
@@ -436,6 +446,7 @@ RootSorts == CASE Fam = "chainp" -> {"SeqInt", "SeqSeqInt"}
                [] Fam = "helper" -> {"SeqInt", "SeqJet"}
                [] Fam = "e2e" -> {"SeqInt", "SeqJet", "SeqEvt"}
                [] Fam = "e2et" -> {"SeqInt"}
+               [] Fam = "e2eb" -> {"SeqSeqSeqInt", "SeqSeqInt"}
                [] Fam \in {"meth", "md", "md1"} -> {"SeqInt", "SeqJet", "SeqEvt", "SeqTrk", "Int"}
                [] OTHER -> {"SeqInt", "SeqJet", "Int"}
 Roots == {Hole(s, Budget, <<>>, <<>>) : s \in RootSorts}
